@@ -307,9 +307,11 @@ def sched_oracle(p, obs):
     if low:
         bad.append(('isophote-below-minsma', f'isophote(s) at sma {low} fitted below minsma={p["minsma"]}'))
     if p['maxsma'] is not None:
-        high = [s for s in smas if not (s < p['maxsma'] or s == a0)]
+        # property text: "within [minsma, maxsma]" (closed); the code itself stops strictly below maxsma,
+        # which is what the model and the theorem say (a difference there is a correspondence finding)
+        high = [s for s in smas if not (s <= p['maxsma'] or s == a0)]
         if high:
-            bad.append(('isophote-above-maxsma', f'isophote(s) at sma {high} not below maxsma={p["maxsma"]}'))
+            bad.append(('isophote-above-maxsma', f'isophote(s) at sma {high} above maxsma={p["maxsma"]}'))
     return bad
 
 
